@@ -47,12 +47,19 @@ Record fdef := mkF { f_name: string; f_alias: option string; f_ty: ty }.
    c_parent: the dataclass base (single inheritance) - only used for the MRO walk;
    c_by_alias: Config.serialize_by_alias (None = not set);
    c_omit_none: Config.omit_none (None = not set);
+   c_omit_default: Config.omit_default (None = not set); c_defaults: field name -> default value (literal defaults);
+   c_sort_keys: Config.sort_keys (to_dict emits the fields sorted by field NAME);
+   c_forbid_extra: Config.forbid_extra_keys (from_dict raises ExtraKeysError for a key that is no alias-or-name);
+   c_allow_by_name: Config.allow_deserialization_not_by_alias (an aliased field is also read under its name);
    c_has_method: the class's own __dict__ holds __mashumaro_to_dict__ (mixin classes always;
    plain dataclasses once some nailed builder compiled them as a field type).  When calls carry
    `dialect=` the flag is also set for subclasses of such classes: the inherited dialect-aware
    method compiles/looks up the packer of self.__class__, i.e. of the runtime class. *)
 Record cdef := mkC { c_name: cname; c_parent: option cname; c_fields: list fdef;
-                     c_by_alias: option bool; c_omit_none: option bool; c_has_method: bool }.
+                     c_by_alias: option bool; c_omit_none: option bool;
+                     c_omit_default: option bool; c_defaults: list (string * val);
+                     c_sort_keys: bool; c_forbid_extra: bool; c_allow_by_name: bool;
+                     c_has_method: bool }.
 Definition env := list cdef.
 
 Fixpoint find_cls (E: env) (c: cname) : option cdef :=
@@ -67,9 +74,10 @@ Fixpoint find_cls (E: env) (c: cname) : option cdef :=
    XUnionV   "no union member matched", codec builder: ValueError(value)
    XInvalid  InvalidFieldValue(field, holder class) raised by a from_dict field block
    XMissing  MissingField(field, holder class)
+   XExtra    ExtraKeysError(holder class) (forbid_extra_keys; the key set is not compared)
    XUnmodelled  the model declines (iteration/indexing of str, repr of containers) *)
 Inductive err := XRaw | XUnionI | XUnionV | XInvalid (f: string) (c: cname)
-               | XMissing (f: string) (c: cname) | XUnmodelled.
+               | XMissing (f: string) (c: cname) | XExtra (c: cname) | XUnmodelled.
 Inductive res (A: Type) := Ok (a: A) | Err (e: err).
 Arguments Ok {A} a.
 Arguments Err {A} e.
@@ -95,8 +103,8 @@ Definition norm_err (e: err) : err := match e with XUnionV => XUnionI | _ => e e
 Definition norm {A} (r: res A) : res A := match r with Ok a => Ok a | Err e => Err (norm_err e) end.
 
 (* options of one dialect layer (None = the dialect does not set it / Sentinel.MISSING) *)
-Record opts := mkO { o_by_alias: option bool; o_omit_none: option bool }.
-Definition no_opts : opts := mkO None None.
+Record opts := mkO { o_by_alias: option bool; o_omit_none: option bool; o_omit_default: option bool }.
+Definition no_opts : opts := mkO None None None.
 
 (* effective option (builder.get_dialect_or_config_option): call dialect > Config > default dialect > False.
    [call] is what a call passes as `dialect=` (all classes enable ADD_DIALECT_SUPPORT), [dflt] is the
@@ -107,11 +115,31 @@ Definition eff_by_alias (call dflt: opts) (d: cdef) : bool :=
   opt_or (o_by_alias call) (opt_or (c_by_alias d) (opt_or (o_by_alias dflt) false)).
 Definition eff_omit_none (call dflt: opts) (d: cdef) : bool :=
   opt_or (o_omit_none call) (opt_or (c_omit_none d) (opt_or (o_omit_none dflt) false)).
+Definition eff_omit_default (call dflt: opts) (d: cdef) : bool :=
+  opt_or (o_omit_default call) (opt_or (c_omit_default d) (opt_or (o_omit_default dflt) false)).
 Definition key_of (call dflt: opts) (d: cdef) (f: fdef) : string :=
   if eff_by_alias call dflt d then match f_alias f with Some a => a | None => f_name f end else f_name f.
 
+(* Config.sort_keys: the field loop of to_dict runs over the fields sorted by name *)
+Fixpoint insert_field (f: fdef) (l: list fdef) : list fdef :=
+  match l with
+  | [] => [f]
+  | g :: r => if String.leb (f_name f) (f_name g) then f :: l else g :: insert_field f r
+  end.
+Definition sort_fields (l: list fdef) : list fdef := fold_right insert_field [] l.
+Definition pack_order (d: cdef) : list fdef := if c_sort_keys d then sort_fields (c_fields d) else c_fields d.
+
 Definition is_none (v: val) : bool := match v with VNone => true | _ => false end.
 Definition is_opt (t: ty) : bool := match t with TOpt _ => true | _ => false end.
+
+(* `value != <default literal>` for the literal defaults of the grammar (None, int, str) *)
+Definition leaf_eqb (a b: val) : bool :=
+  match a, b with
+  | VNone, VNone => true
+  | VInt x, VInt y => Z.eqb x y
+  | VStr x, VStr y => String.eqb x y
+  | _, _ => false
+  end.
 
 Fixpoint assoc {A} (l: list (string * A)) (k: string) : option A :=
   match l with
@@ -232,19 +260,29 @@ Section Pack.
         end
     end.
 
-  (* body of the generated __mashumaro_to_dict__ of class [d] over attribute closures (is the attribute None?,
-     its packer).  A nullable (Optional) field whose value is None is skipped under omit_none, without
-     evaluating its packer. *)
-  Definition pack_fields_cl (d: cdef) (cl: list (string * (bool * (ty -> res val)))) : res val :=
+  (* is the field left out?  (builder.py, incremental form of to_dict)
+       nullable = Optional type or default None;
+       a nullable field that is None is dropped under omit_none, or under omit_default when its default is None;
+       any field equal to its default is dropped under omit_default *)
+  Definition drop_field (d: cdef) (f: fdef) (x: val) : bool :=
+    let dv := assoc (c_defaults d) (f_name f) in
+    let nullable := is_opt (f_ty f) || match dv with Some VNone => true | _ => false end in
+    let od := eff_omit_default call dflt d in
+    (nullable && is_none x && (eff_omit_none call dflt d || (od && match dv with Some VNone => true | _ => false end)))
+    || (od && match dv with Some dflt_v => leaf_eqb x dflt_v | None => false end).
+
+  (* body of the generated __mashumaro_to_dict__ of class [d] over attribute closures (the attribute, its packer).
+     A dropped field's packer is not evaluated. *)
+  Definition pack_fields_cl (d: cdef) (cl: list (string * (val * (ty -> res val)))) : res val :=
     fmap (fun l => VDict (List.concat l))
       (mapM (fun f => match assoc cl (f_name f) with
                       | None => Err XRaw                       (* AttributeError *)
-                      | Some (isn, g) =>
-                          if eff_omit_none call dflt d && isn && is_opt (f_ty f) then Ok []
+                      | Some (x, g) =>
+                          if drop_field d f x then Ok []
                           else match g (f_ty f) with
                                | Ok y => Ok [(key_of call dflt d f, y)]
                                | Err e => Err e end
-                      end) (c_fields d)).
+                      end) (pack_order d)).
 
   Definition target (ann rc: cname) : option cdef :=
     match m with
@@ -299,7 +337,7 @@ Section Pack.
           match v with
           | VObj rc fs =>
               match target c rc with
-              | Some d => pack_fields_cl d (map (fun kv => match kv with (k, x) => (k, (is_none x, pack x)) end) fs)
+              | Some d => pack_fields_cl d (map (fun kv => match kv with (k, x) => (k, (x, pack x)) end) fs)
               | None => Err XRaw
               end
           | _ =>
@@ -322,7 +360,7 @@ Definition run_pack_o (E: env) (m: mode) (o: opts) (t: ty) (v: val) : res val :=
   end.
 (* ... that sets serialize_by_alias only *)
 Definition run_pack (E: env) (m: mode) (dl: option bool) (t: ty) (v: val) : res val :=
-  run_pack_o E m (mkO dl None) t v.
+  run_pack_o E m (mkO dl None None) t v.
 
 (* ------------------------------------------------------------------ *)
 (* conforming values with exact runtime classes                          *)
@@ -414,8 +452,9 @@ Definition no_lookalike_union (E: env) (t: ty) : bool := no_lookalike_ty E t && 
 Definition opt_compat (o c: option bool) : bool :=
   match o, c with Some b, Some b' => Bool.eqb b b' | _, _ => true end.
 Definition dialect_compat_o (E: env) (o: opts) : bool :=
-  forallb (fun d => opt_compat (o_by_alias o) (c_by_alias d) && opt_compat (o_omit_none o) (c_omit_none d)) E.
-Definition dialect_compat (E: env) (dl: option bool) : bool := dialect_compat_o E (mkO dl None).
+  forallb (fun d => opt_compat (o_by_alias o) (c_by_alias d) && opt_compat (o_omit_none o) (c_omit_none d)
+                    && opt_compat (o_omit_default o) (c_omit_default d)) E.
+Definition dialect_compat (E: env) (dl: option bool) : bool := dialect_compat_o E (mkO dl None None).
 
 (* no class declares two fields of the same name *)
 Fixpoint nodupb (l: list string) : bool :=
@@ -518,12 +557,28 @@ Section Unpack.
 
   (* field blocks of the generated __mashumaro_from_dict__ of class [c] over key closures:
      d.get(alias or name) ; MissingField ; any exception of the value unpacker -> InvalidFieldValue *)
+  (* the keys a class accepts (forbid_extra_keys) and where a field is read (alias first, then - if allowed - name) *)
+  Definition allowed_keys (d: cdef) : list string :=
+    (map (fun f => match f_alias f with Some a => a | None => f_name f end) (c_fields d)
+     ++ (if c_allow_by_name d then map f_name (c_fields d) else []))%list.
+  Definition field_lookup {A} (d: cdef) (cl: list (string * A)) (f: fdef) : option A :=
+    match f_alias f with
+    | Some a => match assoc cl a with
+                | Some g => Some g
+                | None => if c_allow_by_name d then assoc cl (f_name f) else None end
+    | None => assoc cl (f_name f)
+    end.
+
   Definition unpack_fields_cl (c: cname) (d: cdef) (cl: list (string * (ty -> res val))) : res val :=
+    if c_forbid_extra d && existsb (fun k => negb (existsb (String.eqb k) (allowed_keys d))) (map fst cl)
+    then Err (XExtra c)
+    else
     fmap (VObj c)
       (mapM (fun f =>
-               let key := match f_alias f with Some a => a | None => f_name f end in
-               match assoc cl key with
-               | None => Err (XMissing (f_name f) c)
+               match field_lookup d cl f with
+               | None => match assoc (c_defaults d) (f_name f) with
+                         | Some dv => Ok (f_name f, dv)           (* the constructor's default *)
+                         | None => Err (XMissing (f_name f) c) end
                | Some g => match g (f_ty f) with
                            | Ok y => Ok (f_name f, y)
                            | Err XUnmodelled => Err XUnmodelled
@@ -620,6 +675,7 @@ Definition err_eqb (a b: err) : bool :=
   | XRaw, XRaw | XUnionI, XUnionI | XUnionV, XUnionV | XUnmodelled, XUnmodelled => true
   | XInvalid f c, XInvalid f' c' => String.eqb f f' && String.eqb c c'
   | XMissing f c, XMissing f' c' => String.eqb f f' && String.eqb c c'
+  | XExtra c, XExtra c' => String.eqb c c'
   | _, _ => false
   end.
 
